@@ -364,7 +364,7 @@ pub fn run_level_b(
                 }
             }
             git(&root, &["add", "-N", "-f", "."])?;
-            git_diff = git(&root, &["diff", "HEAD", "-U0", "--no-color", "--no-ext-diff"]);
+            git_diff = git(&root, &["diff", "HEAD", "-U0", "--no-color", "--no-ext-diff", "--no-renames"]);
             git_diff.as_ref()?;
             Some(())
         })();
@@ -391,7 +391,7 @@ pub fn run_level_b(
         write_file(&root, ".gitignore", &(world.gitignore.join("\n") + "\n"));
     }
     for s in &world.scripts {
-        let _ = lua::write_script(&root, s, &BTreeMap::new(), &plan.lua_busy);
+        let _ = lua::write_script(&root, s, &BTreeMap::new(), &plan.lua_busy, 0);
     }
     if uses_lua(world) {
         let _ = std::fs::create_dir_all(root.join("lua"));
